@@ -23,14 +23,14 @@ import (
 // strings, NULL; + - * ||; relational operators, AND OR NOT, IS NULL, IN)
 
 type node struct {
-	K   string `json:"k"`             // int str null col | add sub mul cat | cmp and or not isnull in
-	Op  string `json:"op,omitempty"`  // cmp: = <> < <= > >=
+	K   string `json:"k"`             // int str null col | add sub mul cat | cmp and or not isnull in | subq
+	Op  string `json:"op,omitempty"`  // cmp: = <> < <= > >= ; subq: sum max min count countall one
 	Neg bool   `json:"neg,omitempty"` // isnull: IS NOT NULL; in: NOT IN
 	N   int64  `json:"n,omitempty"`   // int
 	S   string `json:"s,omitempty"`   // str
-	Q   string `json:"q,omitempty"`   // col: logical table ("t" / "u") or "" = unqualified
+	Q   string `json:"q,omitempty"`   // col: logical table ("t" / "u"), "z" = the table of the enclosing subquery, "" = unqualified; subq: table
 	C   string `json:"c,omitempty"`   // col: column name
-	A   []node `json:"a,omitempty"`   // operands
+	A   []node `json:"a,omitempty"`   // operands; subq: optional WHERE predicate
 }
 
 func nInt(i int64) node             { return node{K: "int", N: i} }
@@ -92,9 +92,22 @@ type binding struct {
 	q   string
 	tab *table
 	row []val.Val
+	m   *model // set on the first binding: the state before the statement, read by scalar subqueries
 }
 
 type env []binding
+
+func (e env) model() *model {
+	for _, b := range e {
+		if b.m != nil {
+			return b.m
+		}
+	}
+	return nil
+}
+
+// subqAlias: the alias of the table of a scalar subquery, (SELECT f(z.c) FROM tab z WHERE ...).
+const subqAlias = "z"
 
 func (e env) lookup(q, c string) (val.Val, error) {
 	found := 0
@@ -198,8 +211,129 @@ func evalVal(n node, e env) (val.Val, error) {
 			return val.Null, outside("string length")
 		}
 		return val.Str(s), nil
+	case "subq":
+		return evalSubq(n, e)
 	}
 	return val.Null, outside("not a value expression: %s", n.K)
+}
+
+// evalSubq: a scalar subquery (value.md: exactly one field, at most one record,
+// NULL without a record; aggregate-functions.md: COUNT counts non-NULL values,
+// COUNT(*) all records, MIN/MAX/SUM ignore NULLs and are NULL when nothing is
+// left). It reads the state BEFORE the statement that contains it.
+func evalSubq(n node, e env) (val.Val, error) {
+	mm := e.model()
+	if mm == nil {
+		return val.Null, outside("subquery without a table state")
+	}
+	for _, b := range e {
+		if b.q == subqAlias {
+			return val.Null, outside("nested subquery")
+		}
+	}
+	st := mm.tabs[n.Q]
+	if st == nil {
+		return val.Null, outside("subquery table")
+	}
+	ci := -1
+	if n.Op != "countall" {
+		if ci = st.col(n.C); ci < 0 {
+			return val.Null, outside("unknown column: %s", n.C)
+		}
+	}
+	if len(n.A) > 1 {
+		return val.Null, outside("arity")
+	}
+	records := 0
+	var vals []val.Val
+	for _, row := range st.Rows {
+		if len(n.A) == 1 {
+			inner := append(append(env{}, e...), binding{q: subqAlias, tab: st, row: row})
+			t, err := evalTern(n.A[0], inner)
+			if err != nil {
+				return val.Null, err
+			}
+			if t != ref.T {
+				continue
+			}
+		}
+		records++
+		if ci >= 0 {
+			vals = append(vals, row[ci])
+		}
+	}
+	switch n.Op {
+	case "countall":
+		return val.Int(int64(records)), nil
+	case "count":
+		c := 0
+		for _, v := range vals {
+			if !v.IsNull() {
+				c++
+			}
+		}
+		return val.Int(int64(c)), nil
+	case "one":
+		switch records {
+		case 0:
+			return val.Null, nil
+		case 1:
+			return vals[0], nil
+		}
+		return val.Null, outside("scalar subquery with several records")
+	case "sum", "max", "min":
+		have := false
+		var acc int64
+		for _, v := range vals {
+			if v.IsNull() {
+				continue
+			}
+			x, ok := ref.AsInteger(v)
+			if !ok || x > intBound || x < -intBound {
+				return val.Null, outside("aggregate over a non-integer value: %s", v)
+			}
+			switch {
+			case !have:
+				acc = x
+			case n.Op == "sum":
+				acc += x
+			case n.Op == "max" && x > acc, n.Op == "min" && x < acc:
+				acc = x
+			}
+			have = true
+		}
+		if !have {
+			return val.Null, nil
+		}
+		return val.Int(acc), nil
+	}
+	return val.Null, outside("subquery function %s", n.Op)
+}
+
+// hasSubq reports a scalar subquery inside n; reads: the tables they read.
+func hasSubq(n node, reads map[string]bool, correlated *bool) bool {
+	found := false
+	if n.K == "subq" {
+		found = true
+		if reads != nil {
+			reads[n.Q] = true
+		}
+		if correlated != nil && len(n.A) == 1 {
+			var refs [][2]string
+			colRefs(n.A[0], &refs)
+			for _, r := range refs {
+				if r[0] != subqAlias {
+					*correlated = true
+				}
+			}
+		}
+	}
+	for _, a := range n.A {
+		if hasSubq(a, reads, correlated) {
+			found = true
+		}
+	}
+	return found
 }
 
 // evalTern evaluates a predicate with Kleene logic (logic-operators.md,
@@ -340,6 +474,15 @@ func render(n node, q map[string]string) string {
 			return "(" + render(n.A[0], q) + " IS NOT NULL)"
 		}
 		return "(" + render(n.A[0], q) + " IS NULL)"
+	case "subq":
+		col := q[subqAlias] + "." + n.C
+		f := map[string]string{"sum": "SUM(" + col + ")", "max": "MAX(" + col + ")", "min": "MIN(" + col + ")",
+			"count": "COUNT(" + col + ")", "countall": "COUNT(*)", "one": col}[n.Op]
+		s := "(SELECT " + f + " FROM " + q["tref:"+n.Q] + " " + q[subqAlias]
+		if len(n.A) == 1 {
+			s += " WHERE " + render(n.A[0], q)
+		}
+		return s + ")"
 	case "in":
 		var xs []string
 		for _, a := range n.A[1:] {
@@ -556,7 +699,7 @@ func (m *model) given(op opT) ([][]val.Val, []int, error) {
 		var picked []int
 		for i, r := range st.Rows {
 			if op.Where != nil {
-				t, err := evalTern(*op.Where, env{{q: op.O, tab: st, row: r}})
+				t, err := evalTern(*op.Where, env{{q: op.O, tab: st, row: r, m: m}})
 				if err != nil {
 					return nil, nil, err
 				}
@@ -592,7 +735,7 @@ func (m *model) given(op opT) ([][]val.Val, []int, error) {
 		for _, i := range picked {
 			var vs []val.Val
 			for _, n := range op.Sel {
-				v, err := evalVal(n, env{{q: op.O, tab: st, row: st.Rows[i]}})
+				v, err := evalVal(n, env{{q: op.O, tab: st, row: st.Rows[i], m: m}})
 				if err != nil {
 					return nil, nil, err
 				}
@@ -734,6 +877,9 @@ func (m *model) apply(op opT) (*effect, error) {
 			var refs [][2]string
 			colRefs(s.E, &refs)
 			for _, r := range refs {
+				if r[0] == subqAlias {
+					continue // a subquery reads the table as it was before the statement
+				}
 				if assigned[r[1]] && r[1] != s.C {
 					return nil, outside("SET expression reads a column assigned in the same statement")
 				}
@@ -742,7 +888,7 @@ func (m *model) apply(op opT) (*effect, error) {
 		nt := tt.clone()
 		matched := 0
 		for i, row := range tt.Rows {
-			e := env{{q: op.T, tab: tt, row: row}}
+			e := env{{q: op.T, tab: tt, row: row, m: m}}
 			if op.Where != nil {
 				t, err := evalTern(*op.Where, e)
 				if err != nil {
@@ -770,7 +916,7 @@ func (m *model) apply(op opT) (*effect, error) {
 		removed := 0
 		for _, row := range tt.Rows {
 			if op.Where != nil {
-				t, err := evalTern(*op.Where, env{{q: op.T, tab: tt, row: row}})
+				t, err := evalTern(*op.Where, env{{q: op.T, tab: tt, row: row, m: m}})
 				if err != nil {
 					return nil, err
 				}
@@ -1045,7 +1191,13 @@ func (nm naming) tref(t string, ext bool) string {
 }
 
 func (nm naming) sql(op opT) string {
-	q := map[string]string{op.T: op.T, op.O: op.O}
+	// qualifiers: a table is known by its name (STDIN for the stdin table) unless a join form
+	// gives aliases; "z" is the alias inside scalar subqueries; tref:<table> its table reference
+	q := map[string]string{subqAlias: subqAlias}
+	for t := range nm.kind {
+		q[t] = nm.tref(t, false)
+		q["tref:"+t] = nm.tref(t, op.Ext)
+	}
 	where := func() string {
 		if op.Where == nil {
 			return ""
